@@ -1494,13 +1494,12 @@ Proof.
     destruct (cancel_req t); [|apply tq_advance; auto].
     destruct (tbeh t) as [[|m]|].
     + right. right. destruct t; reflexivity.
-    + destruct t; cbn in *; exact H.
+    + unfold tq. destruct t; cbn in *. tauto.
     + apply tq_advance. destruct t; cbn in *; exact H'.
   - destruct (cancel_req t); [right; right; destruct t; reflexivity|].
     destruct (slept t); auto. destruct n; [right; right; destruct t; reflexivity|].
-    destruct t; cbn in *; exact H.
-  - destruct (cb_pending t); auto. right. right. destruct t; cbn in *. unfold unfinished. cbn.
-    unfold unfinished in P. cbn in P. rewrite P. reflexivity.
+    unfold tq, unfinished in *. destruct t; cbn in *. subst. tauto.
+  - destruct (cb_pending t); auto.
 Qed.
 
 Lemma tq_reachable ops : forall t, In t (tasks (run_ops ops init)) -> tq t.
@@ -1562,4 +1561,209 @@ Proof.
       + destruct (negb (listening (srv s)) && all_lost (conns s)); auto.
       + destruct (forallb (task_done (tasks s)) snap); auto. }
   intros t Ht. apply (G ops init); auto. intros t0 [].
+Qed.
+
+Definition conn_same_but_crashed (k k' : conn) : Prop :=
+  proc_open k' = proc_open k /\ lost k' = lost k /\ closing k' = closing k /\
+  in_handlers k' = in_handlers k /\ gcn k' = gcn k.
+
+Lemma Forall2_refl_sbc cs : Forall2 conn_same_but_crashed cs cs.
+Proof. induction cs; constructor; auto. unfold conn_same_but_crashed. auto. Qed.
+
+Lemma Forall2_upd_sbc cs n f : (forall k, conn_same_but_crashed k (f k)) ->
+  Forall2 conn_same_but_crashed cs (upd_nth cs n f).
+Proof.
+  intros Hf. revert n. induction cs as [|k r IH]; intros n; cbn; [constructor|].
+  destruct n; constructor; auto; try apply Forall2_refl_sbc. unfold conn_same_but_crashed; auto.
+Qed.
+
+(* RST_STREAM on stream (c,i): no other task, nothing of the server, nothing of the waiter changes *)
+Theorem rst_isolated s c i :
+  exists g, tasks (step s (Rst c i)) = map g (tasks s) /\
+            (forall t, is_key c i t = false -> g t = t) /\
+            srv (step s (Rst c i)) = srv s /\ wst (step s (Rst c i)) = wst s /\
+            Forall2 conn_same_but_crashed (conns s) (conns (step s (Rst c i))).
+Proof.
+  assert (ID : exists g, tasks s = map g (tasks s) /\ (forall t, is_key c i t = false -> g t = t) /\
+                         srv s = srv s /\ wst s = wst s /\ Forall2 conn_same_but_crashed (conns s) (conns s)).
+  { exists (fun t => t). rewrite map_id. repeat split; auto. apply Forall2_refl_sbc. }
+  cbn [step]. destruct (conn_open s c); auto.
+  destruct (find_task c i (tasks s)) as [t|]; auto.
+  destruct (registered t && negb (h2reset t)); auto. cbn [tasks srv wst conns].
+  exists (fun t0 => if is_key c i t0 then rst_task t0 else t0). repeat split; auto.
+  - intros t0 K. rewrite K. reflexivity.
+  - destruct (in_tasks t); [apply Forall2_refl_sbc|].
+    apply Forall2_upd_sbc. intros k. unfold conn_same_but_crashed; cbn; auto.
+Qed.
+
+(* ... and while the handler of the reset stream is still in flight it raises nothing and cancels it *)
+Theorem rst_in_flight_partial ops c i t :
+  let s := run_ops ops init in
+  find_task c i (tasks s) = Some t -> unfinished t = true ->
+  conns (step s (Rst c i)) = conns s /\
+  (conn_open s c = true -> h2reset t = false ->
+   exists t', find_task c i (tasks (step s (Rst c i))) = Some t' /\
+              cancel_req t' = true /\ in_tasks t' = false /\ in_cancelled t' = true /\
+              ncancel t' = ncancel t /\ ph t' = ph t).
+Proof.
+  intros s F U.
+  assert (Ht : In t (tasks s)) by (apply find_some in F; tauto).
+  pose proof (tq_reachable ops t Ht) as Q.
+  pose proof (inv_tasks _ (reachable_inv ops)) as Fa. rewrite Forall_forall in Fa.
+  destruct (Fa t Ht) as (_ & _ & h3 & _). destruct (h3 U) as [R _].
+  assert (IT : h2reset t = false -> in_tasks t = true).
+  { intros H. destruct Q as [X|[X|X]]; congruence. }
+  split.
+  - cbn [step]. destruct (conn_open s c); auto. fold s. rewrite F, R. cbn [andb].
+    destruct (h2reset t) eqn:H2; cbn [negb]; auto. rewrite (IT eq_refl). reflexivity.
+  - intros CO H2. cbn [step]. rewrite CO. fold s. rewrite F, R, H2. cbn [andb negb tasks].
+    rewrite find_on_task; [|intros t0; destruct (rst_task_ok t0) as (a & b & _); auto].
+    rewrite F. cbn [option_map]. eexists. split; [reflexivity|].
+    specialize (IT H2). unfold rst_task, terminated.
+    assert (E : in_tasks (if in_wrapper (set_h2reset t true)
+                          then task_cancel (set_werr (set_h2reset t true) true)
+                          else set_h2reset t true) = true).
+    { destruct (in_wrapper _); [unfold task_cancel; destruct (unfinished _)|]; destruct t; cbn in *; auto. }
+    rewrite E. unfold task_cancel, unfinished, in_wrapper in *.
+    destruct t as [xc xi xb xtm xp xcr xib xcd xsl xwe xrg xit xic xhr xcb xnc xnh xlt xcdn xnr]; cbn in *.
+    destruct xp; try discriminate; cbn; auto 10.
+Qed.
+
+(* the window in which it does raise: Server.close() cancelled a task that never ran, the task is done
+   but its done-callback has not released the stream yet, the 10th accept collected it *)
+Definition gc_keyerror_ops : list op :=
+  [Start; Connect] ++ map (fun i => Open 0 i [AS] (Honour 1) false) (seq 0 9) ++
+  [SrvClose; Run 0 8; Open 0 9 [AS] (Honour 1) false; Rst 0 8].
+
+Theorem rst_isolated_refuted :
+  exists ops c i k, nth_error (conns (run_ops ops init)) c = Some k /\ crashed k = false /\
+                    exists k', nth_error (conns (step (run_ops ops init) (Rst c i))) c = Some k' /\
+                               crashed k' = true.
+Proof.
+  exists (removelast gc_keyerror_ops), 0, 8. vm_compute. eexists. split; [reflexivity|]. split; [reflexivity|].
+  eexists. split; reflexivity.
+Qed.
+
+(* connection_lost / GOAWAY: every unfinished handler task of the connection is cancelled *)
+Theorem close_cancels_all ops c b t' :
+  let s := run_ops ops init in
+  (exists k, conn_at s c = Some k /\ lost k = false) ->
+  In t' (tasks (processor_close s c b)) -> tc t' = c -> unfinished t' = true -> cancel_req t' = true.
+Proof.
+  intros s (k & Ek & Lk) Ht' Tc U. unfold processor_close in Ht'. rewrite Ek, Lk in Ht'.
+  cbn [tasks] in Ht'. unfold on_conn_tasks in Ht'. apply in_map_iff in Ht'.
+  destruct Ht' as (t & E & Ht). 
+  destruct (close_task_ok t) as (a1 & _ & _ & _ & a5 & _).
+  assert (TC : tc t =? c = true).
+  { destruct (tc t =? c) eqn:X; auto. subst t'. rewrite Tc in X. rewrite Nat.eqb_refl in X. discriminate. }
+  rewrite TC in E. subst t'. specialize (a5 U).
+  pose proof (inv_tasks _ (reachable_inv ops)) as Fa. rewrite Forall_forall in Fa.
+  destruct (Fa t Ht) as (_ & _ & h3 & _ & _ & h6 & _). destruct (h3 a5) as [R _].
+  destruct (flagger_close_task t) as (_ & _ & _ & _ & _ & _ & keep & _).
+  destruct (cancel_req t) eqn:CR; [auto|].
+  unfold close_task, handler_close_task.
+  destruct (in_tasks t) eqn:IT.
+  - set (t1 := task_cancel (set_sets t true true)).
+    assert (C1 : cancel_req t1 = true).
+    { unfold t1, task_cancel. replace (unfinished (set_sets t true true)) with (unfinished t) by (destruct t; reflexivity).
+      rewrite a5. destruct t; reflexivity. }
+    destruct (registered t1); auto.
+    destruct (flagger_terminated t1) as (_ & _ & _ & _ & _ & _ & kp & _). auto.
+  - rewrite R. unfold terminated, in_wrapper, unfinished in *.
+    destruct (ph t) eqn:P; try discriminate.
+    + discriminate (h6 _ eq_refl eq_refl).
+    + unfold task_cancel, unfinished. destruct t; cbn in *. rewrite P. reflexivity.
+    + unfold task_cancel, unfinished. destruct t; cbn in *. rewrite P. reflexivity.
+Qed.
+
+(* Server.close(): every unfinished task that is still a value of some handler's _tasks is cancelled
+   and joins _cancelled (so that wait_closed() waits for it) *)
+Theorem srvclose_cancels ops t :
+  let s := run_ops ops init in
+  started (srv s) = true -> In t (tasks s) -> unfinished t = true -> in_tasks t = true ->
+  exists t', In t' (tasks (step s SrvClose)) /\ key t' = key t /\
+             cancel_req t' = true /\ in_cancelled t' = true /\ ncancel t' = ncancel t.
+Proof.
+  intros s St Ht U IT. cbn [step]. rewrite St. cbn [tasks].
+  destruct (inv_conn _ (reachable_inv ops) t Ht) as (k & Ek & Hk). destruct (Hk U) as [IH _].
+  fold s in Ek.
+  exists (handler_close_task t). split.
+  - apply in_map_iff. exists t. split; auto. rewrite Ek, IH. reflexivity.
+  - unfold handler_close_task. rewrite IT. unfold task_cancel.
+    replace (unfinished (set_sets t true true)) with (unfinished t) by (destruct t; reflexivity).
+    rewrite U. destruct t; cbn. auto.
+Qed.
+
+(* ---------------------------------------------------------------------------------------------- *)
+(* 10. which second cause lands in the cleanup                                                      *)
+
+Definition pair_expected (a b : cause) : bool :=
+  match a, b with
+  | CRst, CRst            (* h2 emits one StreamReset per stream *)
+  | CRst, CSrvClose       (* Handler.cancel popped the task from _tasks: Handler.close() skips it *)
+  | CDeadline, CDeadline  (* one-shot timer *)
+  | CGoaway, CRst | CGoaway, CGoaway     (* no event is processed after EventsProcessor.close *)
+  | CLost, CRst | CLost, CGoaway | CLost, CLost => false
+  | _, _ => true
+  end.
+
+Theorem pair_table : forall a b, pair_lands a b = pair_expected a b.
+Proof. intros a b; destruct a, b; vm_compute; reflexivity. Qed.
+
+(* ---------------------------------------------------------------------------------------------- *)
+(* 11. graceful_exit                                                                                *)
+
+Definition gclose (g : gserver) : gserver := mkG (g_started g) (S (g_closes g)).
+
+Lemma first_stage_all_started l :
+  forallb g_started l = true -> first_stage l = (map gclose l, false).
+Proof.
+  induction l as [|g r IH]; cbn; auto. intros H. apply andb_true_iff in H. destruct H as [H1 H2].
+  rewrite (IH H2), H1. unfold gclose. rewrite H1. reflexivity.
+Qed.
+
+Lemma first_stage_some_not_started l :
+  forallb g_started l = false ->
+  first_stage l = (map (fun g => if g_started g then gclose g else g) l, true).
+Proof.
+  induction l as [|g r IH]; cbn; [discriminate|]. intros H.
+  destruct (g_started g) eqn:S0; cbn in H.
+  - rewrite (IH H). unfold gclose. rewrite S0. reflexivity.
+  - destruct (forallb g_started r) eqn:R.
+    + rewrite (first_stage_all_started r R). f_equal. f_equal.
+      apply map_ext_in. intros a Ha. rewrite forallb_forall in R. rewrite (R a Ha). reflexivity.
+    + rewrite (IH eq_refl). reflexivity.
+Qed.
+
+(* first signal, every server started: each server is closed once, nothing is raised, the flag is set *)
+Theorem graceful_first_signal l sig ex :
+  forallb g_started l = true ->
+  exit_handler sig (mkGS l false ex) = mkGS (map gclose l) true ex.
+Proof. intros H. unfold exit_handler. cbn. rewrite (first_stage_all_started l H). reflexivity. Qed.
+
+(* any later signal: SystemExit(128 + sig), no server is closed again *)
+Theorem graceful_second_signal l sig ex :
+  exit_handler sig (mkGS l true ex) = mkGS l true ((128 + sig) :: ex).
+Proof. reflexivity. Qed.
+
+(* a server that was not started: the first signal goes to the second stage (after closing the
+   started ones); the flag stays unset because SystemExit leaves _exit_handler before flag.append *)
+Theorem graceful_not_started l sig ex :
+  forallb g_started l = false ->
+  exit_handler sig (mkGS l false ex) =
+  mkGS (map (fun g => if g_started g then gclose g else g) l) false ((128 + sig) :: ex).
+Proof. intros H. unfold exit_handler. cbn. rewrite (first_stage_some_not_started l H). reflexivity. Qed.
+
+(* whole signal sequences, every server started: closed exactly once, one SystemExit per later signal *)
+Theorem graceful_sequence l sig sigs :
+  forallb g_started l = true ->
+  fold_left (fun st sg => exit_handler sg st) (sig :: sigs) (mkGS l false []) =
+  mkGS (map gclose l) true (rev (map (fun sg => 128 + sg) sigs)).
+Proof.
+  intros H. cbn [fold_left]. rewrite (graceful_first_signal l sig [] H).
+  assert (G : forall sigs ex, fold_left (fun st sg => exit_handler sg st) sigs (mkGS (map gclose l) true ex)
+                              = mkGS (map gclose l) true (rev (map (fun sg => 128 + sg) sigs) ++ ex)).
+  { induction sigs0 as [|a r IH]; intros ex; cbn [fold_left map rev]; auto.
+    rewrite graceful_second_signal, IH, <- app_assoc. reflexivity. }
+  rewrite G, app_nil_r. reflexivity.
 Qed.
